@@ -396,3 +396,28 @@ func init() {
 	zm("Gt", cmp("<", true))
 	zm("Eq", cmp("=", false))
 }
+
+func init() {
+	// ghost floor(a*b/c) over 128-bit vectors (bv mode) or mathematical integers (int mode)
+	externals[rtPath+".MulDiv64"] = func(fr *frame, a []value) value {
+		if IntMode {
+			q := IntBin("div", IntBin("*", intTermOf(a[0]), intTermOf(a[1])), intTermOf(a[2]))
+			_, hi := kindRange(types.Uint64)
+			return tuple{mkIntVal(types.Uint64, wrapKind(types.Uint64, q)), mkVal(types.Bool, IntCmp("<=", q, ConstInt(hi)))}
+		}
+		x, y, z := ZeroExt(termOf(a[0]), 128), ZeroExt(termOf(a[1]), 128), ZeroExt(termOf(a[2]), 128)
+		q := BVBin("bvudiv", BVBin("bvmul", x, y), z)
+		fits := BVCmp("bvule", q, ConstBV(new(big.Int).SetUint64(^uint64(0)), 128))
+		return tuple{mkVal(types.Uint64, Extract(q, 63, 0)), mkVal(types.Bool, fits)}
+	}
+}
+
+func init() {
+	externals[rtPath+".MulLe"] = func(fr *frame, a []value) value {
+		if IntMode {
+			return mkVal(types.Bool, IntCmp("<=", IntBin("*", intTermOf(a[0]), intTermOf(a[1])), IntBin("*", intTermOf(a[2]), intTermOf(a[3]))))
+		}
+		w := func(v value) *Term { return ZeroExt(termOf(v), 128) }
+		return mkVal(types.Bool, BVCmp("bvule", BVBin("bvmul", w(a[0]), w(a[1])), BVBin("bvmul", w(a[2]), w(a[3]))))
+	}
+}
